@@ -62,12 +62,15 @@ func SentinelClientMiddleware(opts ...Option) middleware.Middleware {
 				slotChain := sentinel.BuildDefaultSlotChain()
 				slotChain.AddRuleCheckSlot(outlier.DefaultSlot)
 				slotChain.AddStatSlot(outlier.DefaultMetricStatSlot)
-				entry, _ := sentinel.Entry(
+				entry, blockErr := sentinel.Entry(
 					resourceName,
 					sentinel.WithResourceType(base.ResTypeRPC),
 					sentinel.WithTrafficType(base.Outbound),
 					sentinel.WithSlotChain(slotChain),
 				)
+				if blockErr != nil {
+					return options.BlockFallback(ctx, req, blockErr)
+				}
 				defer entry.Exit()
 
 				if v, ok := metadata.FromClientContext(ctx); ok {
